@@ -20,7 +20,7 @@ MENUS = [
     ("transformer", [None, "z-score", "yeo-johnson"]),
     ("clip", [5.0, 1.0, 0.5]),
     ("spread", [0.0, 0.01]),
-    ("rate", [None, "series", "sparse"]),
+    ("rate", [None, "series", "sparse", "signed"]),
     ("bounds", [None, "start", "end", "endhol", "starthol"]),
     ("folds", [None, "two"]),
     ("delay", [1, 0]),
@@ -83,6 +83,9 @@ def tables(cfg, ndays=14):
         Y.iloc[9, -1] = Y.iloc[8, -1]
         Y.iloc[3, 0] = Y.iloc[2, 0]
     rate = None
+    if cfg["rate"] == "signed":
+        # a rate path that falls to zero and below (zero-rate and negative-rate eras) and comes back
+        rate = pd.Series([(0.0025, 0.0, -0.005, -0.005, 0.0, 0.01)[i % 6] for i in range(len(idx))], index=idx, name="rf")
     if cfg["rate"] in ("series", "sparse"):
         rate = pd.Series(0.01 + 0.002 * np.arange(len(idx)), index=idx, name="rf")
         if cfg["rate"] == "sparse":
